@@ -357,8 +357,9 @@ func (s *vC07IdSys) closeChan(c *vC07IdChan, pendingClose bool) {
 
 func vC07IdentCases(t *testing.T, out *vWriter, master *vrng, only int64) {
 	// quick: round 0 enumerates every identity kind with an uncommitted keystone on an
-	// open channel, round 1 is seeded; thorough: 4 x kinds x shapes
-	def := 2 * len(vC07IdKinds)
+	// open channel, round 1 every kind FULLY CLOSED before the restart (purge rule under
+	// the summary's id), round 2 is seeded; thorough: 4 x kinds x shapes
+	def := 3 * len(vC07IdKinds)
 	if vTier() == "thorough" {
 		def = 4 * len(vC07IdKinds) * len(vC07IdShapes)
 	}
@@ -482,10 +483,15 @@ func vC07IdentCase(t *testing.T, out *vWriter, r *vrng, ci, i int) {
 		}
 	}
 	closeMode := r.intn(4) // 0,1: none; 2: fully closed; 3: close pending
+	if i >= nk && i < 2*nk {
+		closeMode = 2
+	}
 	if closeMode >= 2 {
 		c := s.chans[r.intn(2)]
 		if i < nk {
 			c = s.chans[1] // round 0 keeps the enumerated channel open
+		} else if i < 2*nk {
+			c = s.chans[0] // round 1 closes the enumerated channel
 		}
 		if !c.kind.pending {
 			s.closeChan(c, closeMode == 3)
